@@ -1,6 +1,8 @@
 import OmbottModel.Drv.Range
 import OmbottModel.Drv.Qs
 import OmbottModel.Drv.StaticFile
+import OmbottModel.Drv.Headers
+import OmbottModel.Drv.Cookies
 /-! Dispatch of a protocol line to the area handlers.  `State` holds the few models that are
 driven as state machines across lines (router, multipart feed, header store). -/
 namespace Drv
@@ -21,6 +23,8 @@ def step (st : State) (line : String) : State × String :=
     | "range" => pure? (Range.handle rest)
     | "qs" => pure? (Qs.handle rest)
     | "static" => pure? (StaticFile.handle rest)
+    | "hdr" => pure? (Headers.handle rest)
+    | "cookie" => pure? (Cookies.handle rest)
     | _ => (st, "bad-op")
 
 end Drv
